@@ -152,6 +152,18 @@ class BuiltWorld:
 
                 self.ns[key] = Dependent[eval(inner, self.ns), always]
             return key
+        if k == "unionlit":
+            # the (hook-defined / plain) type in a union with a Literal that no argument of the worlds equals: the same
+            # values as the inner type, decided behind a generated value dispatcher
+            inner = self.type_expr(t["inner"])
+            key = "UNL_" + "".join(ch if ch.isalnum() else "_" for ch in inner)
+            if key not in self.ns:
+                import typing
+
+                from ovld.types import Union as OUnion
+
+                self.ns[key] = OUnion[eval(inner, self.ns), typing.Literal["zz-never-passed"]]
+            return key
         if k == "raw":
             return t["expr"]
         raise ValueError(f"unknown type term {t}")
